@@ -133,7 +133,7 @@ func (c *config) rewrite(node ast.Node) (ast.Node, error) {
 		// Now we make updates
 		for _, f := range x.Fields.List {
 			if c.excludePrivate {
-				r, _ := utf8.DecodeRuneInString(f.Names[0].Name)
+				r, _ := utf8.DecodeRuneInString(fieldName(f))
 				if unicode.IsLower(r) {
 					continue
 				}
@@ -177,6 +177,31 @@ func (c *config) rewrite(node ast.Node) (ast.Node, error) {
 	}
 
 	return node, nil
+}
+
+// fieldName returns the name of a struct field. An embedded field has no names
+// in the AST: its name is the name of its type.
+func fieldName(f *ast.Field) string {
+	if len(f.Names) > 0 {
+		return f.Names[0].Name
+	}
+	t := f.Type
+	for {
+		switch tt := t.(type) {
+		case *ast.StarExpr:
+			t = tt.X
+		case *ast.IndexExpr:
+			t = tt.X
+		case *ast.IndexListExpr:
+			t = tt.X
+		case *ast.SelectorExpr:
+			return tt.Sel.Name
+		case *ast.Ident:
+			return tt.Name
+		default:
+			return ""
+		}
+	}
 }
 
 func (c *config) isExcluded(tags *structtag.Tags) bool {
